@@ -267,6 +267,13 @@ def gen_world(rnd, valid_only=None):
         spec["dirs"].append("%s/d.capy" % rnd.choice(dirs))
     if rnd.random() < 0.5:
         spec["raw"]["%s/notes.txt" % rnd.choice(dirs)] = "not capy\n"
+    # existing files with perfectly valid contents whose names contain `.capy` without ending in it
+    near = []
+    for nm in ("w.capy.bak", "lib.capy.txt", "x.capyx"):
+        if rnd.random() < 0.4:
+            pth = "%s/%s" % (rnd.choice(dirs), nm)
+            spec["raw"][pth] = "id : i64 : 77;\n"
+            near.append(pth)
     # module directory
     mods_good, mods_bad = [], ["gamma"]
     if rnd.random() < 0.7:
@@ -321,7 +328,7 @@ def gen_world(rnd, valid_only=None):
                 d = posixpath.dirname(importer)
                 bad = rnd.choice(["missing", "noncapy", "dircapy", "outside", "abs_outside", "mod",
                                   "outside_deep", "almost_capy", "elsewhere", "outside_sibling",
-                                  "outside_sibling"])
+                                  "outside_sibling", "near_capy", "near_capy"])
                 if bad == "missing":
                     add_import(importer, "import", rnd.choice(["nope.capy", "a/nope.capy", "../nope.capy"]))
                 elif bad == "noncapy":
@@ -330,6 +337,8 @@ def gen_world(rnd, valid_only=None):
                         add_import(importer, "import", posixpath.relpath(notes[0], d))
                     else:
                         add_import(importer, "import", "main.cap")
+                elif bad == "near_capy" and near:
+                    add_import(importer, "import", posixpath.relpath(rnd.choice(near), d))
                 elif bad == "almost_capy":
                     target = rnd.choice(importable)
                     add_import(importer, "import", posixpath.relpath(target, d) + rnd.choice([".bak", "x", " "]))
